@@ -1,5 +1,214 @@
-import MlModel.Model.Tree
+import MlModel.Lemmas.TreeInPlace
+/-!
+# C18 — tree views obey get/set laws and never mutate the viewed data
+
+Model: `MlModel/Model/Tree.lean` — `TreeMapView` over an explicit cell heap (`alloc` builds a new object,
+`write` mutates one in place).  All theorems are for **every** heap, tree, path and value, under at most
+the invariant `Closed h` (no dangling reference — always true of Python objects); cyclic data is allowed
+except where a theorem needs the tree to be finite (`WF`, stated there).
+
+Vocabulary:  `Extends h h'`  = `h'` is `h` plus newly allocated cells, every cell of `h` unchanged;
+`PlainSelf p` = keys are `str`/`Index`/`int`, optionally cut short by `SELF`;  `Diverge p q` = `q` leaves the
+path `p` at some position (neither is a prefix of the other).
+-/
 namespace MlModel.C18
 open MlModel.Tree
-theorem C18_placeholder : resolveIdx 2 (-1) = some 1 := by decide
+
+/-! ## the API entry points in terms of `_set_by_path` -/
+
+@[simp] theorem finishSet_fst (ip : Bool) (root : Ref) (r : Res Ref) : (finishSet ip root r).1 = r.1 := by
+  obtain ⟨h1, e⟩ := r; cases e <;> rfl
+
+theorem copyAndSet_path (strict : Bool) (h : Heap) (t : Ref) (p : Path) (v : Ref) :
+    copyAndSet strict h t (.path p) v = setPath strict false h t p v := by
+  simp only [copyAndSet, setItem]
+  generalize setPath strict false h t p v = r
+  obtain ⟨h1, e⟩ := r
+  cases e <;> simp [finishSet]
+
+theorem setMany_extends (strict : Bool) : ∀ (kvs : List (Path × Ref)) (h : Heap) (t : Ref),
+    Extends h (setMany strict false h t kvs).1 := by
+  intro kvs
+  induction kvs with
+  | nil => intro h t; simp [setMany]; exact Extends.refl _
+  | cons kv kvs ih =>
+    intro h t
+    obtain ⟨p, v⟩ := kv
+    simp only [setMany]
+    have h1 := setPath_extends strict h t p v
+    split
+    · rename_i h1' d he; rw [he] at h1; exact h1.trans (ih h1' d)
+    · rename_i h1' e he; rw [he] at h1; exact h1
+
+/-! ## C18_no_mutation -/
+
+/-- **`copy_and_set` performs no write on a pre-existing cell**, whatever the keys (single path, empty,
+multi-key), the values, and whether it succeeds or raises: the heap afterwards is an extension of the heap
+before. -/
+theorem C18_no_mutation_copy_and_set (strict : Bool) (h : Heap) (root : Ref) (keys : Keys) (values : Ref) :
+    Extends h (copyAndSet strict h root keys values).1 := by
+  cases keys with
+  | path p => rw [copyAndSet_path]; exact setPath_extends strict h root p values
+  | empty =>
+    simp only [copyAndSet, setItem]
+    split <;> exact Extends.refl _
+  | multi ks =>
+    simp only [copyAndSet, setItem]
+    split
+    · rw [finishSet_fst]; exact setPath_extends strict h root _ values
+    · split
+      · exact Extends.refl _
+      · rw [finishSet_fst]; exact setMany_extends strict _ h root
+
+/-- `copy_and_update` performs no write on a pre-existing cell. -/
+theorem C18_no_mutation_copy_and_update (strict : Bool) (h : Heap) (root : Ref) (other : List (Path × Ref)) :
+    Extends h (copyAndUpdate strict h root other).1 := by
+  unfold copyAndUpdate
+  split
+  · exact Extends.refl _
+  · exact setMany_extends strict _ h root
+
+theorem shallowCopy_extends (h : Heap) (r : Ref) : Extends h (shallowCopy h r).1 := by
+  unfold shallowCopy
+  split <;> first | exact extends_push _ _ | exact Extends.refl _
+
+theorem mapValues_extends {f : LeafFn} (hf : ∀ h r, Extends h (f h r).1) :
+    ∀ (ps : List Path) (h : Heap) (root : Ref), Extends h (mapValues f h root ps).1 := by
+  intro ps
+  induction ps with
+  | nil => intro h root; simp [mapValues]; exact Extends.refl _
+  | cons p ps ih =>
+    intro h root
+    simp only [mapValues]
+    split
+    · exact Extends.refl _
+    · rename_i r mapped _
+      have h1 : Extends h (if mapped = true then f h r else (h, r)).1 := by
+        split
+        · exact hf h r
+        · exact Extends.refl _
+      generalize (if mapped = true then f h r else (h, r)) = fr at h1
+      obtain ⟨h1', v⟩ := fr
+      simp only
+      have h2 := ih h1' root
+      split
+      · rename_i h2' kvs he; rw [he] at h2; exact h1.trans h2
+      · rename_i h2' e he; rw [he] at h2; exact h1.trans h2
+
+/-- `apply()` performs no write on a pre-existing cell, for every leaf function that itself only
+allocates (`hf`). -/
+theorem C18_no_mutation_apply (strict : Bool) (f : Option LeafFn) (hf : ∀ g, f = some g → ∀ h r, Extends h (g h r).1)
+    (h : Heap) (root : Ref) : Extends h (applyFn strict f h root).1 := by
+  unfold applyFn
+  split
+  · exact Extends.refl _
+  · rename_i g
+    have h1 := shallowCopy_extends h root
+    generalize shallowCopy h root = sc at h1
+    obtain ⟨h1', c⟩ := sc
+    simp only
+    split
+    · exact h1
+    · exact h1
+    · rename_i ps _ _
+      have h2 := mapValues_extends (hf g rfl) ps h1' root
+      split
+      · rename_i h2' e he; rw [he] at h2; exact h1.trans h2
+      · rename_i h2' kvs he
+        rw [he] at h2
+        exact h1.trans (h2.trans (setMany_extends strict kvs h2' c))
+
+/-- **Hence the original data reads the same at every depth**: after any operation that only extends the
+heap (all of the above; `get`, `items`, `keys` do not even return a heap), every path read from the
+original root returns the same object as before. -/
+theorem C18_no_mutation_reads {h h' : Heap} (hc : Closed h) (e : Extends h h') {root : Ref}
+    (hroot : root < h.size) (q : Path) : get h' root q = get h root q :=
+  get_extends hc e q hroot
+
+/-- ... and the whole cell of every object of the original heap is literally unchanged. -/
+theorem C18_no_mutation_cells {h h' : Heap} (e : Extends h h') {r : Ref} (hr : r < h.size) :
+    h'[r]? = h[r]? := e.2 r hr
+
+/-! ## C18_get_set -/
+
+/-- **Reading a path after a copying set returns the value set** — the very object (`Ref`), for every heap
+(cyclic or not), every tree, existing and fresh paths (dict key, append, `SELF`), every value. -/
+theorem C18_get_set (strict : Bool) {h : Heap} {t v : Ref} {p : Path} {h' : Heap} {t' : Ref}
+    (hp : PlainSelf p) (hs : copyAndSet strict h t (.path p) v = (h', .ok t')) :
+    getItem h' t' (.path p) = .ok (.one v) := by
+  rw [copyAndSet_path] at hs
+  have := setPath_get_set strict p h t v h' t' hp hs h' (fun _ _ _ => rfl)
+  simp [getItem, this, Except.map]
+
+/-! ## C18_frame -/
+
+/-- **Every path that leaves the set path reads as before**: the same object if it could be read, and it
+cannot be read afterwards if it could not be read before. -/
+theorem C18_frame (strict : Bool) {h : Heap} {t v : Ref} {p q : Path} {h' : Heap} {t' : Ref}
+    (hc : Closed h) (ht : t < h.size) (d : Diverge p q)
+    (hs : copyAndSet strict h t (.path p) v = (h', .ok t')) (x : Ref) :
+    get h' t' q = .ok x ↔ get h t q = .ok x := by
+  rw [copyAndSet_path] at hs
+  have he : Extends h h' := by have := setPath_extends strict h t p v; rw [hs] at this; exact this
+  exact setPath_frame strict d h t v h' t' (· < h.size) h' hs hc.region ht (fun r hr => he.2 r hr)
+    (fun _ _ _ => rfl) x
+
+/-! ## sequences of operations: the invariant is preserved -/
+
+/-- The heap after a copying (or in-place) set is again free of dangling references and the result is a
+valid reference, so every theorem of this file applies again to the result: the laws hold along **any
+sequence** of copy-and-set operations. -/
+theorem C18_closed_preserved (strict inPlace : Bool) {h : Heap} {t v : Ref} (p : Path)
+    (hc : Closed h) (ht : t < h.size) (hv : v < h.size) :
+    Closed (setPath strict inPlace h t p v).1 ∧
+      ∀ t', (setPath strict inPlace h t p v).2 = .ok t' → t' < (setPath strict inPlace h t p v).1.size :=
+  ⟨(setPath_closed strict inPlace p h t v hc ht hv).1, (setPath_closed strict inPlace p h t v hc ht hv).2.2⟩
+
+/-! ## C18_multikey -/
+
+/-- **Multi-key reads are aligned with the keys**: `t[k₁,…,kₙ] = (t[k₁],…,t[kₙ])`, and it raises iff one
+of the single reads raises (the first one, left to right). -/
+theorem C18_multikey (h : Heap) (t : Ref) (ks : List Path) :
+    getItem h t (.multi ks) = (ks.mapM (fun k => get h t k)).map .many := rfl
+
+theorem C18_multikey_ok {h : Heap} {t : Ref} {ks : List Path} {rs : List Ref}
+    (hg : getItem h t (.multi ks) = .ok (.many rs)) :
+    rs.length = ks.length ∧ ∀ i (hi : i < ks.length) (hi' : i < rs.length), get h t ks[i] = .ok rs[i] := by
+  simp only [getItem] at hg
+  cases hm : ks.mapM (fun k => get h t k) with
+  | error e => rw [hm] at hg; simp [Except.map] at hg
+  | ok rs' =>
+    rw [hm] at hg
+    simp only [Except.map, Except.ok.injEq, GetRes.many.injEq] at hg
+    subst hg
+    induction ks generalizing rs' with
+    | nil =>
+      simp [List.mapM_nil, pure, Except.pure] at hm
+      subst hm; simp
+    | cons k ks ih =>
+      rw [List.mapM_cons] at hm
+      cases hk : get h t k with
+      | error e => simp [hk, bind, Except.bind] at hm
+      | ok r =>
+        cases hks : ks.mapM (fun k => get h t k) with
+        | error e => simp [hk, hks, bind, Except.bind] at hm
+        | ok rs'' =>
+          simp [hk, hks, bind, Except.bind, pure, Except.pure] at hm
+          subst hm
+          obtain ⟨hl, hall⟩ := ih rs'' hks
+          refine ⟨by simp [hl], ?_⟩
+          intro i hi hi'
+          cases i with
+          | zero => simpa using hk
+          | succ j => simpa using hall j (by simpa using hi) (by simpa using hi')
+
+/-! ## C18_inplace -/
+
+/-- **`set(..., in_place=True)` writes only cells on the key path**: every pre-existing cell that is not
+met when walking the path from the root is unchanged (contrast with `C18_no_mutation_copy_and_set`, where
+*no* pre-existing cell changes). -/
+theorem C18_inplace (strict : Bool) (h : Heap) (t v : Ref) (p : Path) (r : Ref) (hr : r < h.size)
+    (hoff : r ∉ pathCells h t p) : (setPath strict true h t p v).1[r]? = h[r]? :=
+  (setPath_inplace_frame strict p h t v).2 r hr hoff
+
 end MlModel.C18
